@@ -314,16 +314,22 @@ package kv
 //@   trusted
 //@   modifies nothing
 
+// ghost: whether the child examined last (in the inner loop over a version's successors) was old enough
+//@ ghostvar vacLastChildOld bool
 //@ func (*DB).getHistoricRootsAndNodes
 //@   requires dbOK(s)
-//@   modifies nothing
+//@   modifies vacLastChildOld
+// completeness of the selection (C10): a version is kept back ("too new") only because one of ITS OWN successors,
+// the one examined last, is not old enough — never because of a successor of some other version
+//@   at field:Created ghost vacLastChildOld = oldEnough(childRoot, olderThan)
+//@   at if#5 assert kept-back-only-for-an-own-successor: imp(tooNew, !vacLastChildOld)
 //@   ensures imp(err != nil, len(result0) == 0 && len(result1) == 0)
 // no node of the handle's own tree is offered for deletion
 //@   ensures nodes-unused: forall j int :: imp(err == nil && 0 <= j && j < len(result1), !linkIn(*s.crdt.Mast, result1[j]))
 //@   ensures-local nodes-are-candidates: forall j int :: imp(err == nil && 0 <= j && j < len(result1), has(candidateBlocks, result1[j]))
 //@   ensures-local roots-superseded: forall j int, c string :: imp(err == nil && 0 <= j && j < len(result0) && has(parentToChildren[result0[j]], c), has(parentToChildren, result0[j]) && oldEnough(parentToChildren[result0[j]][c], olderThan))
-//@   loop 1 modifies contents(candidateRoots)
-//@   loop 2 modifies nothing
+//@   loop 1 modifies contents(candidateRoots), vacLastChildOld
+//@   loop 2 modifies vacLastChildOld
 //@   loop 1 invariant candidateRoots != nil && fresh(candidateRoots) && parentToChildren != nil && candidateRoots != parentToChildren
 //@   loop 1 invariant forall p string :: imp(has(candidateRoots, p), has(parentToChildren, p) && candidateRoots[p] == parentToChildren[p])
 //@   loop 1 invariant forall p string, c string :: imp(has(candidateRoots, p) && has(parentToChildren[p], c), oldEnough(parentToChildren[p][c], olderThan))
@@ -371,7 +377,7 @@ package kv
 //@ ghostvar historySnapshot int
 //@ func DeleteHistoricVersions
 //@   requires dbOK(s)
-//@   modifies deletes, historyDeletions, historyHandle, historySnapshot
+//@   modifies deletes, historyDeletions, historyHandle, historySnapshot, vacLastChildOld
 //@   ghost historyDeletions = historyDeletions + 1
 //@   ghost historyHandle = int(s)
 //@   ghost historySnapshot = int(*s.crdt.Mast)
